@@ -12,16 +12,16 @@ Definition show_fres (r : fres) : string :=
   end.
 Definition check (rs : list rune) : string := digest (show_fres (format_res rs)).
 Definition full (rs : list rune) : string := show_fres (format_res rs).
-Eval vm_compute in ("<<<M1537>>>" ++ check (runes_of_ascii "packet metadata {
+Eval vm_compute in ("<<<M1793>>>" ++ check (runes_of_ascii "packet metadata {
     repeat f64 Foo,
     repeat Logon f32a `
-    `,
+        `,
     @calculatedFrom(""1"")
     repeat uint8 calculatedFrom `u8 x,`,
     char[] packetx,// packet A { u8 x, }
     @calculatedFrom(""abc"")
     Pad @lengthOf(msg_type) `line1
-    line2`,
+        line2`,
     @rightPad(' ')
     tag `" ++ [233]%N ++ runes_of_ascii "`,
     @tag(10)
@@ -82,10 +82,7 @@ root packet body {
             65535 : rootA,
         },
         match _x as Foo {
-            [
-                255, """ ++ [28040; 24687]%N ++ runes_of_ascii """, ""CRC32"",
-                """ ++ [233]%N ++ runes_of_ascii "t" ++ [233]%N ++ runes_of_ascii """, ""abc""
-            ] : len,
+            [255, """ ++ [28040; 24687]%N ++ runes_of_ascii """, ""CRC32"", """ ++ [233]%N ++ runes_of_ascii "t" ++ [233]%N ++ runes_of_ascii """, ""abc""] : len,
             ""a\\"" : Pad,
             0 : falsey,
             3 : u128,
@@ -161,122 +158,166 @@ As @calculatedFrom(
 ""a	b"" ) `line1
 line2`	, pack lengthOf // `tick` ""quote"" 'q'
 , } // `tick` ""quote"" 'q'")).
-Eval vm_compute in ("<<<M128>>>" ++ check (runes_of_ascii "root
-packet // " ++ [27880; 37322]%N ++ runes_of_ascii "
-crc
-    {	@lengthOf(	As
-)@calculatedFrom(""\" ++ [233]%N ++ runes_of_ascii """
-    ) zchar[ 4294967296 ]MetaDataX `doc` ,/// triple
-rootA @calculatedFrom( ""it's"" )	,@tag( 65535
-    ) @tag( // c
-7 )@tag( 00
-//
-// c
-) len @lengthOf( A ) `two words` ,
-// trailing space 
-// " ++ [128512]%N ++ runes_of_ascii " emoji
-string	rootA@lengthOf( pack
-// trailing space 
-//	t
-) ,
-// " ++ [128512]%N ++ runes_of_ascii " emoji
-// trailing space 
-repeat zchar ,
-@calculatedFrom( ""abc"" )@leftPad ('\x00' ) @rightPad
-( )match x_y_z
-    as Z9_{
-""it's""
-    :
-Logon//x
-, ""x y"" : Packet,""abc""
-: trueish 4294967296 // @lengthOf(
-:
-    repeatCount """ ++ [128512]%N ++ runes_of_ascii """:  x_y_z
-} , char[ 10 // @lengthOf(
-]
-    stringy	`it's`
-, @leftPad (
-'\x00' )
-rootA @lengthOf(  i64_  )
-    , } MetaData falsey {
-Packet repeatCount `tab	here` ,
-}MetaData string_ {
-    float64 roots `line1
-line2` , char
-As //
-`
-` , zchar[ 65535 ]falsey`a\` ,A
-    T , _x metadata, } packet
-_x // packet A { u8 x, }
-{zchar[255 ] string_@lengthOf(
-//	t
-// @lengthOf(
-u128 ) `{ , }`	,
-}root packet Packet
-    {repeat // " ++ [128512]%N ++ runes_of_ascii " emoji
-lengthOf , }")).
-Eval vm_compute in ("<<<M70>>>" ++ check (runes_of_ascii "packet pack { @lengthOf(
-Foo
-    // c
-    )
-    asx @lengthOf( _x ) /// triple
-, u8	x_y_z `two words` ,repeat
-    zchar[0
-    ] roots `
-`
-    // `tick` ""quote"" 'q'
-    , lengthOf @calculatedFrom( ""abc""
-) ,
-@tag( 3 ) @rightPad	( ' ')@calculatedFrom(
-""1""
-//x
-// " ++ [27880; 37322]%N ++ runes_of_ascii "
-)
-repeat uint64 i64_ // trailing space 
-`say ""hi""` // @lengthOf(
-,	@tag( 007 ) match roots as float {	""a	b""
-    : lengthOf,
-    [1, // @lengthOf(
-""\n""
+Eval vm_compute in ("<<<M8>>>" ++ check (runes_of_ascii "// @lengthOf(
+packet Pad { zchar[
+    0 ]Header @calculatedFrom(
+""a	b"" ) // " ++ [27880; 37322]%N ++ runes_of_ascii "
+`say ""hi""` , @calculatedFrom(
+    ""a\""b"" // a // b
+)  body @lengthOf( body// `tick` ""quote"" 'q'
+)`say ""hi""` , u16 stringy@lengthOf(
+    // trailing space 
+    trueish ) , @lengthOf( rootA) f64 Foo `say ""hi""` // c
+,u16 Z9_ , x_y_z , }
+    MetaData metadata { uint64 x , trueish chars//
 ,
-""a\""b"" , ""\" ++ [233]%N ++ runes_of_ascii """ ,  ""1"",
-    42 ]: msg_type, """ ++ [128512]%N ++ runes_of_ascii """: Foo} ,T//x
+    asx lengthOf `u8 x,`  ,
+} options { body // a // b
+=	""packet"" } root
+    packet MetaDataX {zchar[
+42	]
+a1
+,Packet x_y_z // " ++ [27880; 37322]%N ++ runes_of_ascii "
+, u8 Foo
+    `u8 x,` , u64
+//	t
+/// triple
+tag, @tag( 1 //x
+)  string x_y_z @calculatedFrom( ""x y"" ) ,f32 Logon	, _x ,charz // a // b
 {
-    match
-Header
-as trueish
-{ [
-// `tick` ""quote"" 'q'
-// @lengthOf(
-0 , 3// @lengthOf(
-, ""{,}"" ,
-""1"" ,
-00  ,
-0123456789
-,
-    ""// no comment"" ]
-:As
-    , }
-    , } , repeat char[
-    10
-]
-o `
-`
-, @calculatedFrom(
-    //
-    ""`tick`"" //x
-) repeat crc {
-    repeatCount o ,
-    u8x
-As, } ,
-} packet pack{@calculatedFrom( """ ++ [233]%N ++ runes_of_ascii "t" ++ [233]%N ++ runes_of_ascii """ )  u32 f32a
+    rootA metadata `crlf
+line`
+    , Header @calculatedFrom( ""\" ++ [233]%N ++ runes_of_ascii """ ) `` ,
+i64_`line1
+line2`
+    // @lengthOf(
+    , } ,@lengthOf(
+a1// `tick` ""quote"" 'q'
+) string
+As	`doc`
+    , @tag(
+1 ) match As
+    as	trueish
+    //	t
+    {
+    [ ""`tick`""
+    // trailing space 
+    ] :charz,  ""packet"": asx , 42  :
+packetx, [ ""a\\"" ] :
+u }
 ,
 }
-    MetaData float
-{u32 options1 , }
-packet
-f32a { }
+/// triple
 ")).
+Eval vm_compute in ("<<<M1361>>>" ++ check (runes_of_ascii "options
+
+{  FixedStringPadFromLeft
+= true
+	;
+FixedStringPadChar = '0' ;}packet
+
+Leg{ repeat InSym93
+	{
+
+zchar[
+3
+]
+	Acct,
+string
+Side2 , i32 Flags
+    ,f32
+	Note ,i32 msgKind ,
+
+    }	, f64
+Note	, uint16	Px
+
+    , }
+packet
+	Quote {zchar[2] 
+OrderId	, 
+}
+	packet Ack{ repeat	string
+lastPx 
+, 
+zchar[4 
+]price , uint32 OrderId
+	,	Quote,
+
+    int8
+
+    Acct
+
+    ,
+
+} packet	Fill
+
+    {repeat
+    Leg
+    ,
+
+    @rightPad
+
+    (
+	'0' 
+)	char[
+
+11 ]	Note , 
+f64  Px ,
+
+@rightPad  (	'\x00'
+
+    )	char[  5
+] Flags 
+, 
+zchar[
+9]
+x
+
+    ,string 
+msgKind ,
+} root
+    packet Order	{	Leg , repeat Ack 
+,
+@rightPad (
+    '\x00')
+char[
+3  ] Side2,
+
+    repeat
+    char[ 
+1
+]
+
+    seqNo
+
+,	u16
+
+    clOrdID
+    ,
+match
+    clOrdID
+
+as Body
+	{ 198 
+: Leg,
+
+    23
+:
+	Quote
+	, 13 
+:
+Ack ,159
+:
+	Fill
+,
+	}	,	u32	venue
+
+@calculatedFrom( 
+""CRC32"" 
+)
+    ,
+
+}")).
 Eval vm_compute in ("<<<M280>>>" ++ check (runes_of_ascii "packet	crc{@lengthOf( stringy// a // b
 ) @leftPad (
 '0'
@@ -497,34 +538,33 @@ root packet M {
     // c78
     C,// c80
 }")).
-Eval vm_compute in ("<<<M340>>>" ++ check (runes_of_ascii "packet leftPad//
-{@rightPad () repeat chars	{crc /// triple
-pack  ,
-} ,
-@calculatedFrom( """ ++ [28040; 24687]%N ++ runes_of_ascii """ )@lengthOf(options1  )@tag( 65535 ) Foo,match
-matchKey
-    as // " ++ [128512]%N ++ runes_of_ascii " emoji
-tag	{
-    // c
-    [ ""{,}"",
-""""
-, ""`tick`"" ,
-3 ,""it's"",  """ ++ [128512]%N ++ runes_of_ascii """	,
-""it's""] :As
-    , [
-/// triple
-//	t
-""x y""]
-    //x
-    :
-chars,""" ++ [233]%N ++ runes_of_ascii "t" ++ [233]%N ++ runes_of_ascii """	:uint8x,4294967296:	packetx
-""// no comment""
-:
-calculatedFrom , }
-,  @calculatedFrom( ""// no comment""// @lengthOf(
+Eval vm_compute in ("<<<M193>>>" ++ check (runes_of_ascii "
+root packet lengthOf{
+    char[ 3 ] Pad ,	@rightPad
+    (  '0'
 )
-char[// trailing space 
-007 ]	f32a ,} // a // b")).
+    crc `doc` ,i32 //x
+uint8x
+,	zchar { match Logon  as int { [ 0 , """ ++ [233]%N ++ runes_of_ascii "t" ++ [233]%N ++ runes_of_ascii """] :o , ""// no comment"" :len ,
+} , asx
+{
+    //x
+    char[	10 ]
+u128 // a // b
+@lengthOf(  x_y_z)`say ""hi""`, }
+/// triple
+//
+, char[
+1 ] A, u// c
+chars
+    `` , }, repeat matchKey
+{ //x
+string trueish@calculatedFrom(
+    ""a	b""  )  , repeat
+    // packet A { u8 x, }
+    i8 msg_type `it's` ,	} , /// triple
+}
+packet float { }")).
 Eval vm_compute in ("<<<M1193>>>" ++ check (runes_of_ascii "// top
 MetaData
     // c0
@@ -638,68 +678,41 @@ T ,
 ,
 }
 ")).
-Eval vm_compute in ("<<<M1277>>>" ++ check (runes_of_ascii "// top
-options
-    // c0
-{
-    // c1
-LittleEndian // c2
-=
-    // c3
-true
-    // c4
-;
-    // c5
+Eval vm_compute in ("<<<M1376>>>" ++ check (runes_of_ascii "options {
+    LittleEndian = true;
 }
-    // c6
-root // c7a
-  // c7b
-packet P // c9a
-  // c9b
-{ u16
-    // c11
-a // c12
-, // c13
-u32 // c14a
-  // c14b
-Sum
-    // c15
-@calculatedFrom( ""CRC32"" ) // c18a
-  // c18b
-,
-    // c19
-} // c20a
-  // c20b
+packet Logon {
+    u8 x,
+}
+packet Logout {
+    u16 reason,
+}
+root packet Frame {
+    i8 Kind,
+    i8 Kind2,
+    match Kind as Body {
+        1 : Logon,
+        [2, 3, 4] : Logout,
+        100 : Logon,
+    },
+    match Kind2 as Trailer {
+        0 : Logout,
+    },
+}
 ")).
-Eval vm_compute in ("<<<M1316>>>" ++ check (runes_of_ascii "  packet
-
-    MDSnapshotZZ	{	u8
-
-a 
-, }  packet
-    OrderACK  { u16
-b, }packet
-	HTTPServerInfo	{
-string
-s
-
-    ,
-}	root
-    packet  FIXMsg
-    { u8
-KType
-,MDSnapshotZZ  , repeat
-
-    OrderACK,  match 
-KType as Body{1 :
-
-HTTPServerInfo  ,	2
-
-:OrderACK	,
-
-}
-
-    ,}")).
+Eval vm_compute in ("<<<M1785>>>" ++ check (runes_of_ascii "packet repeatCount {
+    @calculatedFrom(""abc"")
+    zchar[0] MetaDataX `
+        `,
+    string_ @calculatedFrom(""1""),
+    match string_ as msg_type {
+        [65535, 7, 255, ""a	b""] : matchKey,
+        10 : options1,
+        3 : Logon,
+    },
+    // " ++ [27880; 37322]%N ++ runes_of_ascii "
+    packetx `a\`,
+}")).
 Eval vm_compute in ("<<<M234>>>" ++ check (runes_of_ascii "//	t
 options{
     chars=true As= char[]
